@@ -574,6 +574,36 @@ def copy_siblings(ctx, res, only):
             res.oblige(ok, key + ":contents", mod.loc(c),
                        "contents are not deep-copied element-wise from self "
                        "with the memo")
+            # every component of an element taken from self (for a dict:
+            # key *and* value) goes through copy.deepcopy
+            for x in exprs:
+                for comp in ast.walk(x):
+                    if not isinstance(comp, (ast.ListComp, ast.SetComp,
+                                             ast.GeneratorExp, ast.DictComp)):
+                        continue
+                    gen = comp.generators[0]
+                    if selfn not in names_in(gen.iter):
+                        continue
+                    tvars = set(names_in(gen.target))
+                    parts = [comp.key, comp.value] if isinstance(
+                        comp, ast.DictComp) else [comp.elt]
+                    covered = set()
+                    for part in parts:
+                        for n in ast.walk(part):
+                            if isinstance(n, ast.Call) and norm(n.func) == \
+                                    "copy.deepcopy" and n.args:
+                                covered |= {id(m) for m in ast.walk(n.args[0])}
+                    bare = sorted({n.id for part in parts
+                                   for n in ast.walk(part)
+                                   if isinstance(n, ast.Name)
+                                   and n.id in tvars and id(n) not in covered})
+                    res.oblige(not bare, key + ":contents-shared",
+                               mod.loc(comp),
+                               f"`{', '.join(bare)}` of each element is put "
+                               f"into the copy without copy.deepcopy: the "
+                               f"copy shares that object with the original "
+                               f"(hashable is not immutable - an Instance "
+                               f"key stays the original's object)")
     if only == "set":
         # TraitSetObject.__reduce_ex__ must use the custom __getstate__
         mod, base, obj = classes["set"]
